@@ -77,7 +77,9 @@ pub fn te(depth: u32, enc: bool, bitvec: bool, extra_leaves: Vec<TE>) -> BoxedSt
             1 => bx(TE::Ref, inner.clone()),
             3 => bx(TE::Option, inner.clone()),
             2 => (inner.clone(), inner.clone()).prop_map(|(a, b)| TE::Result(Box::new(a), Box::new(b))),
-            2 => (inner.clone(), 0u8..5).prop_map(|(a, n)| TE::Array(Box::new(a), n)),
+            2 => (inner.clone(), 0u32..5).prop_map(|(a, n)| TE::Array(Box::new(a), n)),
+            // lengths that do not fit 16 bits (byte-sized elements keep the values small)
+            1 => (prop::sample::select(vec![TE::U(8), TE::Bool, TE::I(8), TE::Unit]), prop::sample::select(vec![65535u32, 65536, 65537, 70000, 131072])).prop_map(|(a, n)| TE::Array(Box::new(a), n)),
             3 => vec(inner.clone(), 1..5).prop_map(TE::Tuple),
             1 => (vec(leaf_te(enc, false), big_tuple)).prop_map(TE::Tuple),
             1 => bx(TE::CowSlice, inner.clone()),
@@ -611,9 +613,11 @@ pub fn family_program(k: u8) -> Program {
         4 => {
             let mut v = ints();
             v.extend(vec![TE::Bool, TE::String, TE::Unit]);
-            for n in 0..5u8 {
+            for n in 0..5u32 {
                 v.push(TE::Array(bx(TE::U(16)), n));
             }
+            v.push(TE::Array(bx(TE::U(8)), 65536));
+            v.push(TE::Array(bx(TE::Unit), 70000));
             v.push(TE::Array(bx(TE::Array(bx(TE::Bool), 2)), 3));
             v.push(TE::Option(bx(TE::Option(bx(TE::Unit)))));
             v.push(TE::Result(bx(TE::Unit), bx(TE::Unit)));
